@@ -53,7 +53,7 @@ PROPS.update({
         "title": "Validation work is linear in the packet size",
         "units": ["U1"],
         "cone": [r"check_compressed_name", r"check_uncompressed_name$", r"DNSSector::parse_opt$", r"DNSSector::parse_rr$", r"DNSSector::parse$", r"spec/linear\.rs"],
-        "witness": None,
+        "witness": ("c18", 3000),
         "level": "proof", "design_ref": "DESIGN.md section 5 C18",
         "assumptions": U1_ASSUME + ["the ghost step counters are incremented once at every loop head of the walkers (spliced by the side-car, listed in the evidence); 'ghost counter == real iterations' is by construction of the splice",
                                      "parse_rr performs at most 3 name walks: counted syntactically, not proved"],
@@ -120,6 +120,21 @@ PROPS.update({
                         "two live Vec allocations fit in the address space together (axiom_two_vecs, used for the capacity hint of SOA::build)"],
         "level_text": "every typed builder (RR::new, new_question, A, AAAA, NS, CNAME, PTR, TXT, MX, SOA, DS) is proved to return exactly rr_wire(fields) -- owner name, type, class, TTL, RDLENGTH, RDATA per RFC 1035 -- and to fail exactly when a name does not encode or the data is too long; proof level covers the builders only",
         "technique": "Verus byte-exact postconditions on the extracted builders (unit U5); grammar clauses: differential replay only (stated)",
+    },
+})
+
+PROPS.update({
+    "C17": {
+        "title": "Results depend only on the arguments, never on earlier or concurrent calls",
+        "units": [],
+        "cone": None,
+        "witness": None,
+        "level": "other", "design_ref": "DESIGN.md section 5 C17",
+        "extra": ["c17_scan"],
+        "explanation": "(1) every function of units U1-U8 is verified as a function of its arguments: a Verus exec function can observe only its parameters, and for parse (C02/C04), uncompress (C05), the builders (C13) and name conversion (C14) the result is proved EQUAL to a spec function of the input bytes, which is purity outright; (2) mechanical scan, every run, of the source of the cone of parse/uncompress/compress/rename/synthesis for static mut, thread_local!, lazy/once cells, statics with interior mutability, rand/time/env and unsafe: must be empty except the transaction id drawn in ParsedPacket::empty(); (3) compress() and rename_with_raw_names() create their suffix dictionary with SuffixDict::new() as a local (syntactic check; SuffixDict::new() is proved to return an empty dictionary in unit U7). The concurrent half follows from the absence of shared mutable state and Rust's aliasing rules; it is argued, not proved.",
+        "assumptions": ["concurrency: argued from absence of shared state + Rust's aliasing rules, not proved", "the scan is syntactic (regular expressions over comment-stripped source)"],
+        "level_text": "corollary of the functional contracts of the other units plus a mechanical scan for hidden state / ambient inputs; not a proof of the concurrent half",
+        "technique": "functional (result == spec function of the input) Verus contracts + syntactic purity scan of the cone",
     },
 })
 
